@@ -32,7 +32,19 @@ int nondet_int(void); unsigned nondet_uint(void); char nondet_char(void); double
 #ifdef __CPROVER
 #define ASSUME(c) __CPROVER_assume(c)
 #else
-#define ASSUME(c) do { if (!(c)) exit(0); } while (0)
+/* native replay of a CBMC counterexample: nondet_*() return the recorded values in order (file named by E1_REPLAY); a failed
+   assertion prints "REPLAY-FAIL: <text>" and the process exits 1 at the end; a false assumption means the recording does not apply */
+#include <stdio.h>
+static FILE *e1_rf; static int e1_failed;
+static const char *e1_next(void) { static char buf[128]; if (!e1_rf) { const char *f = getenv("E1_REPLAY"); e1_rf = f ? fopen(f, "r") : 0; } if (!e1_rf || fscanf(e1_rf, "%127s", buf) != 1) return "0"; return buf; }
+int nondet_int(void) { return (int)strtol(e1_next(), 0, 0); } unsigned nondet_uint(void) { return (unsigned)strtoul(e1_next(), 0, 0); } char nondet_char(void) { return (char)strtol(e1_next(), 0, 0); }
+double nondet_double(void) { return strtod(e1_next(), 0); } float nondet_float(void) { return (float)strtod(e1_next(), 0); } long nondet_long(void) { return strtol(e1_next(), 0, 0); } _Bool nondet_bool(void) { return strtol(e1_next(), 0, 0) != 0; }
+#define ASSUME(c) do { if (!(c)) { printf("REPLAY-ASSUME-FALSE line %d\n", __LINE__); exit(3); } } while (0)
+#define __CPROVER_assume(c) ASSUME(c)
+#define __CPROVER_assert(c, msg) do { if (!(c)) { printf("REPLAY-FAIL: %s\n", msg); e1_failed = 1; } } while (0)
+#define __CPROVER_same_object(a, b) 1
+#define __CPROVER_POINTER_OFFSET(p) ((unsigned long)(p))
+#define E1_NATIVE 1
 #endif
 #ifdef WITNESS
 #define WITNESS_POINT() __CPROVER_assert(0, "WITNESS reachable")
